@@ -455,12 +455,14 @@ func c10RunLeader(sc drv.Scenario, p *c10Params) drv.Result {
 	start := time.Now()
 	fol := map[string]*fakeFollower{}
 	added := map[string]bool{}
+	joinTime := map[string]int64{}
 	if p.EarlyRegister {
 		for _, f := range p.Followers {
 			if f.JoinAt == 0 {
 				ff := &fakeFollower{name: f.Name, start: start, failFrom: f.PingFailFrom, rebalErr: f.RebalErrors}
 				fol[f.Name] = ff
-				sd.Add(servicediscovery.NewService(ff, f.Name, time.Now().UnixNano()))
+				joinTime[f.Name] = time.Now().UnixNano()
+				sd.Add(servicediscovery.NewService(ff, f.Name, joinTime[f.Name]))
 				added[f.Name] = true
 			}
 		}
@@ -491,7 +493,6 @@ func c10RunLeader(sc drv.Scenario, p *c10Params) drv.Result {
 		}
 	}
 	restarted := map[string]bool{}
-	joinTime := map[string]int64{}
 	total := maxT + 23 // two further heartbeat + monitor rounds (hard-coded 5 s) after the last change, plus retries
 	for time.Since(start) < time.Duration(total)*time.Second {
 		for _, f := range p.Followers {
